@@ -1,15 +1,15 @@
 #!/bin/sh
 # Builds the framework from files on disk only (offline): fact extractor, generated Lean
 # facts from /repo's working tree, all Lean modules (proofs + native model drivers), and a
-# first build of the Go harness to warm the build cache.
-set -e
+# first build of the Go harness to warm the build cache. Every check rebuilds what it needs
+# itself, so a failure of one property's modules here is reported but does not stop the setup.
 cd "$(dirname "$0")"
 export GOFLAGS=-mod=mod GOPROXY=off
 unset GOSUMDB GOTOOLCHAIN || true
-(cd ogfacts && go build -o ogfacts .)
+(cd ogfacts && go build -o ogfacts .) || { echo "setup: ogfacts does not build"; exit 1; }
 rm -f lean/OG/Generated/*.lean
-./ogfacts/ogfacts -repo "${VERIF_REPO:-/repo}" -out lean/OG/Generated || true
-(cd lean && lake build)
-python3 tools/gen_gomod.py harness
-(cd harness && go build -tags "verif allprops" -o /dev/null ./cmd/ogh)
+./ogfacts/ogfacts -repo "${VERIF_REPO:-/repo}" -out lean/OG/Generated || echo "setup: warning: fact generation reported problems"
+(cd lean && lake build) || echo "setup: warning: some Lean modules did not build (the checks of those properties will report it)"
+python3 tools/gen_gomod.py harness || { echo "setup: cannot generate harness/go.mod"; exit 1; }
+(cd harness && go build -tags "verif allprops" -o /dev/null ./cmd/ogh) || echo "setup: warning: the all-properties harness build failed (each check builds its own harness)"
 echo setup-ok
